@@ -94,33 +94,44 @@ _LIST_VALUES = {
 }
 
 
-def iter_atomic_values(xsd_type: XsdTypeProtocol) -> Iterator[aliases.AtomicType]:
-    """Generates a list of XSD atomic values related to provided XSD type."""
-
-    def _iter_values(type_: Optional[XsdTypeProtocol], depth: int) -> Iterator[aliases.AtomicType]:
+def iter_member_values(xsd_type: XsdTypeProtocol) \
+        -> Iterator[tuple[Optional[XsdTypeProtocol], aliases.AtomicType]]:
+    """
+    Generates the XSD atomic prototype values related to provided XSD type, each paired
+    with the union member type it stands for (`None` if the type is not a union).
+    """
+    def _iter_values(type_: Optional[XsdTypeProtocol], depth: int) \
+            -> Iterator[tuple[Optional[XsdTypeProtocol], aliases.AtomicType]]:
         while depth <= 15 and type_ is not None:
             if type_.name in atomic_values:
-                yield atomic_values[type_.name]
+                yield None, atomic_values[type_.name]
                 return
             elif hasattr(type_, 'member_types'):
                 for member_type in type_.member_types:
-                    yield from _iter_values(member_type, depth + 1)
+                    for member, value in _iter_values(member_type, depth + 1):
+                        yield member or member_type, value
                 return
             # the nearest base with a prototype: item/base type if the processor provides them
-            if depth == 1 and hasattr(type_, 'item_type'):
+            if hasattr(type_, 'item_type'):
                 type_ = type_.item_type
             else:
                 type_ = getattr(type_, 'base_type', None if type_ is type_.root_type else type_.root_type)
 
     atomic_values = _ATOMIC_VALUES[xsd_type.xsd_version]
     if xsd_type.name in atomic_values:
-        yield atomic_values[xsd_type.name]
+        yield None, atomic_values[xsd_type.name]
     elif xsd_type.is_simple():
         yield from _iter_values(xsd_type, 1)
     elif (simple_type := xsd_type.simple_type) is None:
         yield from _iter_values(xsd_type.root_type, 1)
     else:
         yield from _iter_values(simple_type, 1)
+
+
+def iter_atomic_values(xsd_type: XsdTypeProtocol) -> Iterator[aliases.AtomicType]:
+    """Generates a list of XSD atomic values related to provided XSD type."""
+    for _, value in iter_member_values(xsd_type):
+        yield value
 
 
 def get_atomic_sequence(xsd_type: Optional[XsdTypeProtocol],
@@ -156,12 +167,19 @@ def get_atomic_sequence(xsd_type: Optional[XsdTypeProtocol],
         code = 'FORG0001'
 
         # every literal (every item of a list) is decoded by the first prototype that accepts it
-        values = list(iter_atomic_values(xsd_type))
+        values = list(iter_member_values(xsd_type))
         result = []
         for item in (text.split() if xsd_type.is_list() else [text]):
-            for value in values:
+            for member, value in values:
                 try:
-                    result.append(decode(item))
+                    if member is None:
+                        result.append(decode(item))
+                    elif not member.is_valid(item):  # lexical space and facets of the member
+                        raise ValueError(f'{item!r} is not valid for {member!r}')
+                    elif member.is_list():
+                        result.extend([decode(x) for x in item.split()])
+                    else:
+                        result.append(decode(item))
                 except (ArithmeticError, ValueError) as err:
                     if error is None:
                         error = err
